@@ -78,7 +78,7 @@ CLAIMED["C19"] = dict(
 
 
 CLAIMED["C01"] = dict(
-   text="Decides the data and closed formulas the calendar conversions are built from, against an independent first-principles Gregorian / ISO 8601 oracle and for the whole supported range 1601..4095 at once: the 28-year Jan-01 weekday table is right on exactly the interval the guard of __get_jan01_wday uses it for directly, and the 400-year equivalence map (decoded from its if-chain) sends every other year to a year inside that interval with the same weekday; the cumulative month table and its leap threshold; the case labels of __get_isowk / __get_z31wk are exactly the residues mod 400 with 53 weeks resp. a hang-over week; the leap year predicate; the year-start formula __jan00_daisy; the Lilian / Julian / Matlab bases in both directions and the Unix epoch base and seconds per day; the validity bound of __daisy_to_ymd against the last day of the range (the 606-day shortfall is known finding D21, pinned by test dconv.122); every converter dt_conv_to_{daisy,ymd,ymcw,ywd,yd} has a case for every source representation the property names (40 pairs). Equality of every computed conversion result for all 911,280 days is NOT decided: values produced by loops and multi-step arithmetic (__ymd_to_daisy, the Neri-Schneider inverse, __yday_get_md, the ywd/ymcw constructors) are outside static reach.",
+   text="Decides the data and closed formulas the calendar conversions are built from, against an independent first-principles Gregorian / ISO 8601 oracle and for the whole supported range 1601..4095 at once: the 28-year Jan-01 weekday table is right on exactly the interval the guard of __get_jan01_wday uses it for directly, and the 400-year equivalence map (decoded from its if-chain) sends every other year to a year inside that interval with the same weekday; the cumulative month table and its leap threshold; the case labels of __get_isowk / __get_z31wk are exactly the residues mod 400 with 53 weeks resp. a hang-over week; the leap year predicate; the year-start formula __jan00_daisy; the closed Neri-Schneider formula __ymd_to_daisy (no loop, no table), folded for the first of each of the 29,940 months of the range and shown additive in the day of the month by its polynomial summary; the two readjustment tests of __daisy_get_year against the convention day = year start + day of year; the Lilian / Julian / Matlab bases in both directions and the Unix epoch base and seconds per day; the validity bound of __daisy_to_ymd against the last day of the range (the 606-day shortfall is known finding D21, pinned by test dconv.122); every converter dt_conv_to_{daisy,ymd,ymcw,ywd,yd} has a case for every source representation the property names (40 pairs). Equality of every computed conversion result for all 911,280 days is NOT decided: values produced by loops, searches and the 911,280-point inverse (the Neri-Schneider inverse __daisy_to_ymd, __yday_get_md, __daisy_get_year's estimate, the ywd/ymcw constructors) are outside static reach.",
    note="Tables are folded from their initialisers; closed formulas without loops (leap predicate, year start) are folded over their finite domain by the constant folder, anything with loops or memory is rejected as not decodable (exit 2). The Lilian base follows the repository's documented convention (days since 1582-10-15, that day being 0).",
    technique="static analysis: table / case-label / constant decoding from the AST compared with a first-principles oracle; guard-interval vs table-validity agreement; switch exhaustiveness",
    ref="DESIGN.md §4 C01")
